@@ -306,7 +306,7 @@ func RunImpl(sc Scenario, s *vs.Sched) string {
 					o = "c"
 				case 's':
 					v := val(t, k)
-					if ChanSend(r.chans[op.C], unsafe.Pointer(&v), 8) {
+					if sendOrClosed(r.chans[op.C], unsafe.Pointer(&v)) {
 						o = "s"
 					} else {
 						r.obs[t] += "s!,"
@@ -376,6 +376,21 @@ func RunImpl(sc Scenario, s *vs.Sched) string {
 		parts = append(parts, r.obs[t]+status)
 	}
 	return strings.Join(parts, " | ")
+}
+
+// sendOrClosed reports false when the send hit a closed channel (Go: panic "send on closed channel";
+// older llgo: ChanSend returned false). Any other panic propagates.
+func sendOrClosed(c *Chan, v unsafe.Pointer) (ok bool) {
+	defer func() {
+		if r := recover(); r != nil {
+			if s, isStr := r.(string); isStr && strings.Contains(s, "send on closed channel") {
+				ok = false
+				return
+			}
+			panic(r)
+		}
+	}()
+	return ChanSend(c, v, 8)
 }
 
 func SortedKeys(m map[string]bool) []string {
